@@ -403,9 +403,22 @@ func opC07Pair(raw json.RawMessage, o *Out) {
 			}
 		}
 	}
-	// Polygon.Invert against the independently constructed complement
-	{
-		loops := c.A.build(c.Fa, c.Gf, false)
+	// Polygon.Invert against the independently constructed complement, for A and for B
+	for side := 0; side < 2; side++ {
+		var loops []*s2.Loop
+		var orig, compl, other *s2.Polygon
+		var w [3]bool
+		name := "A"
+		if side == 0 {
+			loops = c.A.build(c.Fa, c.Gf, false)
+			orig, compl, other = px[0], px[1], py[0]
+			w = [3]bool{pg.C[1][0], pg.D[1][0], pg.I[1][0]} // ~A.Contains(B), B.Contains(~A), ~A.Intersects(B)
+		} else {
+			name = "B"
+			loops = c.B.build(c.Fb, c.Gf, false)
+			orig, compl, other = py[0], py[1], px[0]
+			w = [3]bool{pg.D[0][1], pg.C[0][1], pg.J[0][1]} // ~B.Contains(A), A.Contains(~B), ~B.Intersects(A)
+		}
 		pa := s2.PolygonFromLoops(loops)
 		built := false
 		for _, l := range loops {
@@ -414,22 +427,20 @@ func opC07Pair(raw json.RawMessage, o *Out) {
 			}
 		}
 		pa.Invert()
-		y := py[0]
-		g := [3]bool{pa.Contains(y), y.Contains(pa), pa.Intersects(y)}
-		w := [3]bool{pg.C[1][0], pg.D[1][0], pg.I[1][0]}
+		g := [3]bool{pa.Contains(other), other.Contains(pa), pa.Intersects(other)}
 		if g != w {
 			cls := "loop-index-not-built"
 			if built {
 				cls = "loop-index-built"
 			}
-			o.Fail("c07pair/"+kind+"/Invert/"+cls, "after A.Invert(): Contains(B),B.Contains,Intersects = %v, the polygon built from the complement's loops answers %v (model %v); %s",
-				g, w, [3]bool{c.Want.C[1][0], c.Want.D[1][0], c.Want.I[1][0]}, desc)
+			o.Fail("c07pair/"+kind+"/Invert/"+cls, "after %s.Invert(): Contains(other),other.Contains,Intersects = %v, the polygon built from the complement's loops answers %v; %s",
+				name, g, w, desc)
 		}
 		// the inverted polygon is the complement: same loops, equal to the independently built
 		// complement polygon (equal regions contain each other), disjoint from the original
-		if pa.NumLoops() != len(loops) || !pa.Contains(px[1]) || !px[1].Contains(pa) || pa.Intersects(px[0]) || px[0].Intersects(pa) {
-			o.Fail("c07pair/"+kind+"/Invert/not-the-complement", "after A.Invert(): NumLoops=%d (was %d), Contains(~A)=%v, ~A.Contains=%v, Intersects(A)=%v, A.Intersects=%v; %s",
-				pa.NumLoops(), len(loops), pa.Contains(px[1]), px[1].Contains(pa), pa.Intersects(px[0]), px[0].Intersects(pa), desc)
+		if pa.NumLoops() != len(loops) || !pa.Contains(compl) || !compl.Contains(pa) || pa.Intersects(orig) || orig.Intersects(pa) {
+			o.Fail("c07pair/"+kind+"/Invert/not-the-complement", "after %s.Invert(): NumLoops=%d (was %d), Contains(complement)=%v, complement.Contains=%v, Intersects(original)=%v, original.Intersects=%v; %s",
+				name, pa.NumLoops(), len(loops), pa.Contains(compl), compl.Contains(pa), pa.Intersects(orig), orig.Intersects(pa), desc)
 		}
 	}
 	if o.nontrivial || spanAny {
